@@ -23,7 +23,8 @@ VENV_PY = os.environ.get("SYMX_VENV_PY", "/venv/bin/python")
 class Case:
     def __init__(self, name, fn, params=None, replay=None, witness=None, bounds=None, stubs=(), assumptions=(),
                  max_paths=200000, timeout_s=None, env=None, functions=(), max_witness=None, shards=1, shard_depth=6,
-                 fast_ms=None, ack_first=False, memory_only=False):
+                 fast_ms=None, ack_first=False, memory_only=False, query_timeout_ms=None):
+        self.query_timeout_ms = query_timeout_ms      # per-case override of the tier's per-query time-out
         self.memory_only = memory_only
         self.fast_ms = fast_ms
         self.ack_first = ack_first
@@ -54,7 +55,7 @@ def _run_case(args):
         case = mod.cases(tier)[idx]
         res["case"] = case.name
         deadline = t0 + case.timeout_s if case.timeout_s else None
-        ex = core.Explorer(max_paths=case.max_paths, query_timeout_ms=qt, want_witness=bool(case.witness), deadline=deadline,
+        ex = core.Explorer(max_paths=case.max_paths, query_timeout_ms=(case.query_timeout_ms or qt), want_witness=bool(case.witness), deadline=deadline,
                            shard=shard, fast_ms=case.fast_ms, ack_first=case.ack_first, memory_only=case.memory_only)
         from .shims import numpy_shim, misc_shim
 
